@@ -1247,10 +1247,13 @@ impl<T: Config> P2PSession<T> {
     fn check_checksum_send_interval(&mut self) {
         match self.desync_detection {
             DesyncDetection::On { interval } => {
+                // an interval beyond the frame range can never elapse; saturate instead of
+                // letting the cast wrap to a negative frame number
+                let interval = i32::try_from(interval).unwrap_or(i32::MAX);
                 let frame_to_send = if self.last_sent_checksum_frame == NULL_FRAME {
-                    interval as i32
+                    interval
                 } else {
-                    self.last_sent_checksum_frame + interval as i32
+                    self.last_sent_checksum_frame.saturating_add(interval)
                 };
 
                 if frame_to_send <= self.sync_layer.last_confirmed_frame() {
@@ -1277,8 +1280,9 @@ impl<T: Config> P2PSession<T> {
                         self.local_checksum_history.insert(checksum_frame, checksum);
 
                         if self.local_checksum_history.len() > MAX_CHECKSUM_HISTORY_SIZE {
-                            let oldest_frame_to_keep = checksum_frame
-                                - (MAX_CHECKSUM_HISTORY_SIZE as i32 - 1) * interval as i32;
+                            let oldest_frame_to_keep = checksum_frame.saturating_sub(
+                                (MAX_CHECKSUM_HISTORY_SIZE as i32 - 1).saturating_mul(interval),
+                            );
                             self.local_checksum_history
                                 .retain(|&frame, _| frame >= oldest_frame_to_keep);
                         }
